@@ -640,7 +640,7 @@ theorem decode_scanReply {α} (elems : List α) keyOf typeName (t : Bool) (curso
     have h1 : (scanPage elems keyOf typeName cursor o).2 = [] := by
       rw [scanPage_snd, List.drop_of_length_le (by omega)]; simp
     have hcnt : 0 < o.count := parse_count_pos' hp
-    simp only [decodeScanReply, h1, hr, scanPage_fst]
+    simp only [decodeScanReply, h1, hr, scanPage_fst, FR.parseCanonInt_intBytes, Option.map_some]
     rw [if_pos (by omega)]
 
 /-- the hints one request brings: the clock reading taken under the lock, and whatever else the harness recorded
@@ -1670,7 +1670,7 @@ theorem sys_cover (mode : Mode) (c : Nat) (nameB : Bytes) (opts : List Bytes) (o
 theorem kscanAnswer_missing (K : KScan) (hK : K.Ok) (v : Nat) (key cb : Bytes) (opts : List Bytes) (cur : Int)
     (heven : opts.length % 2 = 0) (hint : Conv.int cb = .ok cur) (hc : 0 ≤ cur)
     (hok : allPairsOk false opts = true) :
-    kscanAnswer K v none key cb opts = .arr [.int 0, .arr []] := by
+    kscanAnswer K v none key cb opts = .arr [.bulk (intBytes 0), .arr []] := by
   rw [kscanAnswer_eq, if_neg (by omega), hint]
   simp only [Bool.false_eq_true, if_false]
   rw [hK.missing, scan_missing_empty _ _ _ _ _ _ hc heven hok]
